@@ -16,13 +16,17 @@ timeout 3000 cargo test --offline --test "$T" > "$OUT/demo-with.log" 2>&1; r1=$?
 timeout 3000 cargo nextest run --workspace --no-fail-fast --offline --test-threads 8 -E 'not binary(/seeded/)' > "$OUT/suite-with.log" 2>&1; r2=$?
 suite=$(grep -E "Summary" "$OUT/suite-with.log" | tail -1 | sed 's/\x1b\[[0-9;]*m//g')
 git checkout -q -- .
-# the framework's check against the change
-cd /verif
-git -C /repo apply "$S/$X/patch.diff" || { echo "patch does not apply to /repo"; exit 2; }
+# the framework's check against the change: run in a private copy (/tmp/evalws: worktrees of /verif HEAD and /repo HEAD,
+# harness wired to that repo copy) so that /repo itself is never modified
+EVW=/tmp/evalws
+git -C $EVW/verif checkout -q -- . ; git -C $EVW/verif checkout -q --detach "$(git -C /verif rev-parse HEAD)"
+git -C $EVW/repo checkout -q -- . ; git -C $EVW/repo checkout -q --detach "$(git -C /repo rev-parse HEAD)"
+sed -i "s|/repo|$EVW/repo|g" $EVW/verif/harness/Cargo.toml; sed -i "s|cp /repo/Cargo.lock|cp $EVW/repo/Cargo.lock|" $EVW/verif/check
+git -C $EVW/repo apply "$S/$X/patch.diff" || { echo "patch does not apply to the repo HEAD"; exit 2; }
 s=$(date +%s)
-timeout 2400 ./check "$PID" quick > "$OUT/check-quick.log" 2>&1; rc=$?
+( cd $EVW/verif && VERIF_ROOT=$EVW/verif timeout 2400 ./check "$PID" quick ) > "$OUT/check-quick.log" 2>&1; rc=$?
 e=$(( $(date +%s) - s ))
-git -C /repo checkout -- .
+git -C $EVW/repo checkout -q -- .
 sig=$(grep -m1 "signature=" "$OUT/check-quick.log" | sed 's/.*signature=//' | cut -c1-120)
 python3 - "$OUT" "$PID" "$ID" "$X" "$r0" "$r1" "$r2" "$suite" "$rc" "$e" "$sig" <<'PY'
 import json, sys
@@ -37,7 +41,7 @@ meta = {
    "pinned_suite_with_change": suite.strip() or f"rc={r2}",
    "commands": [f"cargo test --offline --test seeded_{i}_{x} (without / with the patch, in a scratch worktree)",
                 "cargo nextest run --workspace --no-fail-fast --offline --test-threads 8 -E 'not binary(/seeded/)' (with the patch)",
-                f"git -C /repo apply patch.diff; ./check {pid} quick; git -C /repo checkout -- ."],
+                f"patch applied to a worktree of /repo HEAD and ./check {pid} quick run with the harness wired to that worktree (same as: git -C /repo apply patch.diff; ./check {pid} quick; git -C /repo checkout -- .)"],
  },
  "framework": {"check": f"./check {pid} quick", "exit_code": int(rc), "detected": rc == '1', "seconds": int(e), "first_signature": sig},
 }
